@@ -5,7 +5,8 @@ use dprint_core::formatting::{
 	condition_helpers::is_multiple_lines,
 	condition_resolvers::true_resolver,
 	ir_helpers::{new_line_group, with_indent},
-	ConditionResolver, ConditionResolverContext, LineNumber, PrintItems, PrintOptions,
+	ConditionResolver, ConditionResolverContext, LineNumber, LineNumberAnchor, PrintItems,
+	PrintOptions,
 };
 use hi_doc::{Formatting, SnippetBuilder};
 use jrsonnet_lexer::collect_lexed_str_block;
@@ -186,6 +187,8 @@ macro_rules! pi {
 		$o.push_info($v);
 		pi!(@s; $o: $($t)*);
 	}};
+	// The line number `$v`, measured further on, moves along when this place is printed on another
+	// line: a group keeps its extent while a group around it is laid out again
 	(@s; $o:ident: ln_anchor($v:expr) $($t:tt)*) => {{
 		$o.push_anchor(LineNumberAnchor::new($v));
 		pi!(@s; $o: $($t)*);
@@ -504,7 +507,7 @@ impl Printable for ArgsDesc {
 		let args_items = gen_args(children, multi_line.clone());
 		let args = with_indent_eoi(multi_line, "", args_items, end_comments);
 
-		p!(out, str("(") info(start) items(args) str(")") info(end));
+		p!(out, str("(") ln_anchor(end) info(start) items(args) str(")") info(end));
 	}
 }
 impl Printable for SliceDesc {
@@ -681,7 +684,7 @@ impl Printable for ObjBody {
 
 				let members = with_indent_eoi(multi_line, " ", members_items.into(), end_comments);
 
-				p!(out, str("{") info(start));
+				p!(out, str("{") ln_anchor(end) info(start));
 				p!(out, items(members));
 				p!(out, str("}") info(end));
 			}
@@ -912,7 +915,7 @@ impl Printable for ExprArray {
 
 		let els = with_indent_eoi(multi_line, " ", els_items.into(), end_comments);
 
-		p!(out, str("[") info(start) items(els) str("]") info(end));
+		p!(out, str("[") ln_anchor(end) info(start) items(els) str("]") info(end));
 	}
 }
 
